@@ -276,6 +276,30 @@ Section Machine.
     let '(seeds, p') := worker_seeds (Z.to_nat (wk_hi ncpu - wk_lo)) parent in
     p' :: map rss_new seeds.
 
+  (* extend_trial_data_file -> create_trial_data_file -> Analysis.do_trials ->
+     parallelize -> do_trial: the service that was (re)seeded is handed down
+     unchanged - no further reseed, no new service, nothing drawn on the way
+     (statement counts of the source); do_trial creates exactly one service (the
+     default minimiser one).  A tree in which one of these facts fails is read as
+     "rows may carry any seed". *)
+  Definition service_handed_down : bool :=
+    (ctdf_nreseed =? 0) && (ctdf_nservice =? 0) && (ctdf_ntrials_calls =? 1)
+    && (ext_nreseed =? 1) && (ext_nservice =? 0) && ext_reseed_before_create
+    && (trials_nservice =? 0) && (trials_nrss_calls =? 0)
+    && (pseudo_nservice =? 0) && (trial_nservice =? 1).
+
+  (* the seeds recorded in the rows appended to a trial file (do_trial records
+     the seed of the service its process works with): one entry per process *)
+  Definition row_seeds (parent : rss) (ncpu : Z) : res (list Z) :=
+    if service_handed_down
+       && (seed_create_rss 0 =? 0) && (ctdf_trials_rss 0 =? 0) && (trials_rss 0 =? 0)
+    then Ok (map (fun r => trial_rec_seed (rs_seed r)) (rss_list parent ncpu))
+    else Err RuntimeError.
+
+  Definition extend_rows (rss_seed : Z) (seeds : list Z) (ncpu : Z) : res (list Z) :=
+    do s <- extend_seed rss_seed seeds;
+    row_seeds (rss_reseed (rss_new rss_seed) s) ncpu.
+
   (* the service process `pid` works with *)
   Definition proc_rss (parent : rss) (ncpu pid : Z) : res rss :=
     let l := rss_list parent ncpu in
